@@ -2,6 +2,19 @@
 from pool import *  # noqa
 
 
+def from_schema_scalar(S, named):
+    k = S["k"]
+    if k == "int":
+        return Int(S["w"], S["s"])
+    if k == "flt":
+        return Flt(S["w"])
+    if k == "str":
+        return Str(S["cw"])
+    if k == "struct":
+        return named["SA"]
+    raise ValueError(k)
+
+
 def build_pool():
     P = []
     u8, u16, u32, u64 = Int(1, False), Int(2, False), Int(4, False), Int(8, False)
@@ -61,6 +74,20 @@ def build_pool():
     P.append(Struct('SL%d' % k, [LBuf(s8, 130, 1, False, 'std'), u8])); k += 1
     P.append(Struct('SL%d' % k, [LBuf(f64, 3, 1, False, 'c')])); k += 1
     P.append(Struct('SL%d' % k, [LBuf(s8, 2, 2, True, 'c')])); k += 1
+    # vector counterparts of the logical-buffer structures (fungible): a peer may legitimately send more elements
+    # than the reader's array holds (SV<k> is SL<k> with std::vector members in place of the logical buffers)
+    lb_structs = [t for t in P if t.tid.startswith('SL')]
+    for t in lb_structs:
+        members = []
+        for m in t.schema["m"]:
+            members.append(m)
+        vm = []
+        for i, m in enumerate(t.schema["m"]):
+            if m["k"] == "lbuf":
+                vm.append(Vec(from_schema_scalar(m["e"], {"SA": SA})))
+            else:
+                vm.append(from_schema_scalar(m, {"SA": SA}))
+        P.append(Struct('SV' + t.tid[2:], vm))
     # value wrappers
     P += [Wrap('WU32', u32), Wrap('WStr', s8), Wrap('WLb', LBuf(u8, 8, 4, False, 'c')), Wrap('WVec', Vec(i16))]
     # tables
